@@ -10,8 +10,24 @@ import tempfile
 
 mdir, demo_pkg = os.path.abspath(sys.argv[1]), sys.argv[2]
 pkgs = sys.argv[3:]
-wt = tempfile.mkdtemp(prefix="seedwt_", dir="/tmp")
-os.rmdir(wt)
+# fixed worktree paths (four slots, one flock each): Go's build cache is keyed by the package directory, a fresh
+# random path per run would recompile everything and grow the cache by gigabytes per run
+import fcntl
+wt, _slot = None, None
+while wt is None:
+    for k in range(4):
+        f = open("/tmp/seedwt_slot%d.lock" % k, "w")
+        try:
+            fcntl.flock(f, fcntl.LOCK_EX | fcntl.LOCK_NB)
+        except OSError:
+            f.close()
+            continue
+        wt, _slot = "/tmp/seedwt_slot%d" % k, f
+        break
+    else:
+        import time
+        time.sleep(5)
+subprocess.call("git -C /repo worktree remove --force %s >/dev/null 2>&1; rm -rf %s; git -C /repo worktree prune" % (wt, wt), shell=True)
 env = dict(os.environ, GOPROXY="off")
 
 
